@@ -158,8 +158,11 @@ PROPS["C13"] = dict(
                  "CBMC at concrete lengths with symbolic contents and index tuples under the functions' documented preconditions."),
     verus=[dict(name="params", template="contracts/C13/params.vrs", expect=["SwapMutation::from_params"])],
     kani=[dict(files=["contracts/C13/c13.rs"])],
-    min_obligations={"quick": 9, "thorough": 19},
-    uncovered=["mutation components' execute (State + RNG)", "recombination() driver", "real/bit mutations gated by the rate"],
+    native=[dict(files=["contracts/C13/c13_native.rs"],
+                 harnesses={"c13_native_recombination_counts": dict(anchor="recombination",
+                            bound="BOUNDED STAND-IN, native run: 0..7 parents x pc in {0,1} x insert-one/both x 4 seeds x {uniform, 2-point} crossover")})],
+    min_obligations={"quick": 10, "thorough": 20},
+    uncovered=["mutation components' execute (State + RNG)", "recombination() driver is only covered by a BOUNDED native run", "real/bit mutations gated by the rate"],
 )
 PROPS["C14"] = dict(
     level="other",
@@ -178,8 +181,11 @@ PROPS["C12"] = dict(
     verus=[dict(name="driver", template="contracts/C12/driver.vrs", expect=["replacement"]),
            dict(name="mu_plus_lambda", template="contracts/C12/mu_plus_lambda.vrs", expect=["<MuPlusLambda as Replacement<P>>::replace"])],
     kani=[dict(files=["contracts/C12/c12.rs"])],
-    min_obligations={"quick": 30, "thorough": 34},
-    uncovered=["KeepBetterAtIndex (ensure! => Kani ICE; iterator chain => Verus rejects)"],
+    native=[dict(files=["contracts/C12/c12_native.rs"],
+                 harnesses={"c12_native_keep_better_at_index": dict(anchor="KeepBetterAtIndex::replace",
+                            bound="BOUNDED STAND-IN, native exhaustive enumeration: equal sizes 0..2 over 5 objective values (incl. ties, +inf) + 4 unequal-size pairs")})],
+    min_obligations={"quick": 31, "thorough": 35},
+    uncovered=["KeepBetterAtIndex is only covered by a BOUNDED native enumeration (ensure! => Kani ICE; iterator chain => Verus rejects)"],
 )
 
 PROPS["C02"] = dict(
